@@ -27,6 +27,12 @@ CLAIMED = {
          "For each of the 27 body attributes, in scalar / per-column / matrix shape, TLC generates tables, page splits and removed-column positions; the real encode is read back and TLC checks every data cell against the value the attribute specifies for its original (row, column), and against the unpaginated rendering of the same table."),
  "C13": ("5 C13", "TLC model checking of spec/GroupBy.tla + TLC trace validation (spec/GroupTrace.tla) of group_by columns read back from real encodes",
          "All key sequences over {a,b,null} up to length 4-6 (1-2 levels) exhaustively, longer ones with 1-3 levels by simulation: TLC checks the blanking rule per observed row (with the observed page structure), untouched other columns, fill-down, and ValueError iff non-contiguous."),
+ "C12": ("5 C12", "TLC model checking of spec/ColorCtx.tla and spec/ColorDoc.tla + TLC trace validation (spec/ColorTrace.tla) of every colour and font reference read back from real encodes",
+         "Each of the 657 named colours on a body cell (exhaustive), all encoding paths x component modes (exhaustive) and random palettes of 1..8 colours on random components as text/background/border colour with the 10 fonts: TLC checks that every \\cf/\\chcbpat/\\brdrcf index names the document's own table entry with the requested RGB and every \\fN the requested font."),
+ "C14": ("5 C14", "TLC model checking of operation histories (spec/ColorHist.tla over spec/ColorCtx.tla) + TLC trace validation (spec/HistTrace.tla) of histories executed in forked children",
+         "TLC enumerates all histories up to the exhaustive length over a pool of 9 documents (and simulates length-4 ones); each is executed in a forked child of an import-only parent and TLC checks, per operation, that the output digest equals the one from a fresh interpreter, that ValueError is raised exactly by the failing document, and that the caller's DataFrame is unchanged."),
+ "C15": ("5 C15", "TLC model checking of all thread interleavings (spec/ColorCtx.tla), TLC-generated schedules replayed on real threads with a settrace gate, single preemption at every library call boundary, conformance of recorded colour events (spec/CtxTrace.tla)",
+         "All interleavings of 2 and 3 encoder processes are model-checked; every sampled TLC schedule of colour-context steps is replayed on real threads; thread A is preempted at every distinct library function call (thorough: every call instance) with thread B run to completion, plus sampled 2-3 preemptions with 3 threads; TLC judges that each thread's output equals its output alone and that the recorded colour events are a behaviour of the per-thread-context specification."),
 }
 PENDING = {}
 
